@@ -172,6 +172,10 @@ class Engine:
             self.s.add(v <= lift(hi))
         r = SymInt(v)
         self.inputs[name] = r
+        if lo is not None and isinstance(lo, int) and isinstance(hi, int) and lo == hi:
+            if not hasattr(self, "pinned"):
+                self.pinned = {}
+            self.pinned[name] = (v, z3.IntVal(lo))      # a fixed input: renders as ordinary text (sym_str)
         return r
 
     def choice(self, name, n):
@@ -1048,10 +1052,14 @@ def sym_int(x=0, base=None):
 
 def sym_str(x="", *a):
     if isinstance(x, SymInt):
-        try:
-            return str(concretize_unique(x, "str"))      # a pinned value renders as the ordinary text
-        except Unsupported:
-            return SymIntStr(x)
+        # a value fixed by pinned inputs renders as the ordinary text; decided syntactically (substitute, simplify),
+        # never by a solver query - str() is called far too often for that
+        pins = getattr(_ENG, "pinned", None) if _ENG is not None else None
+        if pins:
+            v = z3.simplify(z3.substitute(x.e, *pins.values()))
+            if z3.is_int_value(v):
+                return str(v.as_long())
+        return SymIntStr(x)
     if (hasattr(x, "__symlen__") and hasattr(x, "chars")) or getattr(x, "_ostr", False):
         return x
     if isinstance(x, Rat):
